@@ -2,19 +2,19 @@
    5fe51d0 (style attribute rank), 44a9070 (nested rules in source order) and
    5f1d923 (every member of a nested selector list is relative to the parent).
 
-   Ported code:
+   Ported code (line numbers as of /repo commit bb7a416):
      html/tree/style.go      newStyleFor 50-116 (the two insertion loops),
-                             findStyleAttributes 739-1037 (style attribute and
+                             findStyleAttributes 751-1049 (style attribute and
                              width/height presentational hints),
-                             declarationPrecedence 1041-1057,
-                             weight / weight.Less 1084-1106,
-                             preprocessStylesheet 1270-1360 (style rules,
+                             declarationPrecedence 1053-1069,
+                             weight / isNone / weight.Less 1096-1119,
+                             preprocessStylesheet 1301-1465 (style rules,
                              @import, @media, "other" at-rules),
-                             GetAllComputedStyles 1475-1493 (sheet order),
-                             findStylesheets 657-676 (media attribute)
-     html/tree/tree.go       matcher.match 218-227
-     html/tree/media_query.go evaluateMediaQuery 11-19
-     css/validation/validation.go PreprocessDeclarationsPrelude 548-712
+                             GetAllComputedStyles 1492-1524 (sheet order),
+                             findStylesheets 671-732 (media attribute)
+     html/tree/tree.go       matcher.match 224-233
+     html/tree/media_query.go evaluateMediaQuery 11-19, parseMediaQuery 21-25
+     css/validation/validation.go PreprocessDeclarationsPrelude 548-711
                              (nested-rule flattening)
      css/selector/specificity.go Specificity.Less 9-19,
      css/selector/pseudo_classes.go 70-81 (:is() specificity = max of arguments)
@@ -36,7 +36,7 @@ Inductive origin := UA | User | Author.
 Definition origin_eqb (a b : origin) : bool :=
   match a, b with UA, UA | User, User | Author, Author => true | _, _ => false end.
 
-(* style.go:1041-1057 declarationPrecedence (origin strings "user agent",
+(* style.go:1053-1069 declarationPrecedence (origin strings "user agent",
    "user", "author"; importance) *)
 Definition declaration_precedence (o : origin) (importance : bool) : N :=
   if origin_eqb o UA then 1
@@ -67,7 +67,7 @@ Definition spec_add (s o : spec3) : spec3 :=
 (* pseudo_classes.go:72-80  if max.Less(newSpe) { max = newSpe } *)
 Definition spec_max (m n : spec3) : spec3 := if spec_less m n then n else m.
 
-(* style.go:1084-1092 *)
+(* style.go:1096-1103 *)
 Record weight := mkW { w_prec : N; w_attr : bool; w_spec : spec3 }.
 
 Definition zero_weight := mkW 0 false (0, 0, 0).
@@ -75,10 +75,10 @@ Definition zero_weight := mkW 0 false (0, 0, 0).
 Definition weight_eqb (a b : weight) : bool :=
   (w_prec a =? w_prec b) && Bool.eqb (w_attr a) (w_attr b) && spec_eqb (w_spec a) (w_spec b).
 
-(* style.go:1094-1096 isNone: w == weight{} *)
+(* style.go:1105-1107 isNone: w == weight{} *)
 Definition is_none (w : weight) : bool := weight_eqb w zero_weight.
 
-(* style.go:1098-1107 weight.Less: "w <= other" *)
+(* style.go:1109-1119 weight.Less: "w <= other" *)
 Definition w_less (w o : weight) : bool :=
   if negb (w_prec w =? w_prec o) then w_prec w <? w_prec o
   else if negb (Bool.eqb (w_attr w) (w_attr o)) then w_attr o
@@ -96,7 +96,8 @@ Inductive sel :=
 | SDesc (a b : sel)      (* a b *)
 | SChild (a b : sel)     (* a > b *)
 | SIs (a : sel)          (* :is(a) *)
-| SOr (a b : sel).       (* a, b  (inside :is()) *)
+| SOr (a b : sel)        (* a, b  (inside :is()) *)
+| SPseudo (k : N) (a : sel).   (* a::k  k = 1 before, 2 after, 3 marker, ...; only outermost *)
 
 Record node := mkNode {
   n_tag : N; n_id : option N; n_classes : list N;
@@ -133,7 +134,16 @@ Fixpoint matches (s : sel) (p : path) {struct s} : bool :=
     | SChild a b => matches b p && matches a anc
     | SIs a => matches a p
     | SOr a b => matches a p || matches b p
+    | SPseudo _ _ => false       (* a pseudo-element is not an element *)
     end
+  end.
+
+(* tree.go:224-233 with style.go:99: the selector feeds the cascaded style of
+   key (element, sel.PseudoElement()); pseudo = 0 is the element itself *)
+Definition applies (s : sel) (pseudo : N) (p : path) : bool :=
+  match s with
+  | SPseudo k a => (k =? pseudo) && (0 <? pseudo) && matches a p
+  | _ => (pseudo =? 0) && matches s p
   end.
 
 (* selector.Sel.Specificity on the fragment *)
@@ -150,6 +160,7 @@ Fixpoint specificity (s : sel) : spec3 :=
   | SChild a b => spec_add (specificity a) (specificity b)
   | SIs a => specificity a
   | SOr a b => spec_max (specificity a) (specificity b)
+  | SPseudo _ a => spec_add (specificity a) (0, 0, 1)
   end.
 
 (* ------------------------------------------------------------------ style sheets *)
@@ -186,7 +197,7 @@ Fixpoint has_amp (s : sel) : bool :=
   match s with
   | SAmp => true
   | SAnd a b | SDesc a b | SChild a b | SOr a b => has_amp a || has_amp b
-  | SIs a => has_amp a
+  | SIs a | SPseudo _ a => has_amp a
   | _ => false
   end.
 
@@ -198,6 +209,7 @@ Fixpoint subst_amp (r s : sel) : sel :=
   | SChild a b => SChild (subst_amp r a) (subst_amp r b)
   | SOr a b => SOr (subst_amp r a) (subst_amp r b)
   | SIs a => SIs (subst_amp r a)
+  | SPseudo k a => SPseudo k (subst_amp r a)
   | _ => s
   end.
 
@@ -208,7 +220,7 @@ Fixpoint or_list (g : list sel) : sel :=
   | a :: r => SOr a (or_list r)
   end.
 
-(* validation.go:571 `is := :is(<prelude>)` *)
+(* validation.go:572 `is := :is(<prelude>)` *)
 Definition parent_is (g : list sel) : sel := SIs (or_list g).
 
 (* validation.go:600-603 prepends the tokens ":is(parent) " to the member: the
@@ -217,51 +229,52 @@ Fixpoint prepend_desc (r s : sel) : sel :=
   match s with
   | SDesc a b => SDesc (prepend_desc r a) b
   | SChild a b => SChild (prepend_desc r a) b
+  | SPseudo k a => SPseudo k (prepend_desc r a)
   | _ => SDesc r s
   end.
 
-(* validation.go:587-611: every member of the nested selector list either has its
+(* validation.go:587-612: every member of the nested selector list either has its
    `&` replaced by :is(parent) or gets ":is(parent) " prepended *)
 Definition resolve (g pre : list sel) : list sel :=
   map (fun s => if has_amp s then subst_amp (parent_is g) s else prepend_desc (parent_is g) s) pre.
 
-(* validation.go:553-565: `&` in a top-level rule is :root *)
+(* validation.go:551-562: `&` in a top-level rule is :root *)
 Definition resolve_top (g : list sel) : list sel := map (subst_amp SRoot) g.
 
 Definition nonempty {A} (l : list A) : bool := match l with [] => false | _ => true end.
 
-(* validation.go:572-712 PreprocessDeclarationsPrelude, g = the (resolved)
+(* validation.go:572-711 PreprocessDeclarationsPrelude, g = the (resolved)
    prelude, own/out = the two local slices *)
 Fixpoint flatten_body (g : list sel) (b : body) (own : list decl) (out : list frule) : list frule :=
   match b with
-  | BNil =>                                   (* 701-703 *)
+  | BNil =>                                   (* 705-707 *)
       if nonempty own || negb (nonempty out) then out ++ [(g, own)] else out
-  | BDecl d rest => flatten_body g rest (own ++ [d]) out     (* 683-690 *)
+  | BDecl d rest => flatten_body g rest (own ++ [d]) out     (* 693-700 *)
   | BNest pre inner rest =>
-      let contents := flatten_body (resolve g pre) inner [] [] in      (* 612-616 *)
-      if nonempty own                                                  (* 619-622 *)
+      let contents := flatten_body (resolve g pre) inner [] [] in      (* 613-617 *)
+      if nonempty own                                                  (* 620-624 *)
       then flatten_body g rest [] ((out ++ [(g, own)]) ++ contents)
       else flatten_body g rest own (out ++ contents)
   end.
 
-(* style.go:1270-1360 preprocessStylesheet; the shared *matcher is the
+(* style.go:1301-1465 preprocessStylesheet; the shared *matcher is the
    concatenation of the results.  (Rules whose every flattened part is kept:
    pseudo-elements and invalid selectors are not in the modelled fragment.) *)
 Fixpoint flatten_rules (device : N) (rs : rules) (ignore_imports : bool) : list frule :=
   match rs with
   | RNil => []
-  | RStyle g b rest =>                                        (* 1281-1306 *)
+  | RStyle g b rest =>                                        (* 1312-1337 *)
       flatten_body (resolve_top g) b [] [] ++ flatten_rules device rest true
-  | RImport q fetched sh rest =>                              (* 1309-1343 *)
+  | RImport q fetched sh rest =>                              (* 1340-1375 *)
       if ignore_imports then flatten_rules device rest ignore_imports
       else if negb (evaluate_media q device) then flatten_rules device rest ignore_imports
       else if fetched then flatten_rules device sh false ++ flatten_rules device rest ignore_imports
       else flatten_rules device rest ignore_imports
-  | RMedia q inner rest =>                                    (* 1344-1359 *)
+  | RMedia q inner rest =>                                    (* 1376-1390 *)
       if evaluate_media q device
       then flatten_rules device inner true ++ flatten_rules device rest true
       else flatten_rules device rest true
-  | ROther rest => flatten_rules device rest true             (* 1360-... *)
+  | ROther rest => flatten_rules device rest true             (* 1391-1462: @page, @font-face, @counter-style *)
   end.
 
 (* ------------------------------------------------------------------ the cascade *)
@@ -282,19 +295,19 @@ Definition insert (o : origin) (attr : bool) (sp : spec3) (m : cmap) (d : decl) 
   let old := lookup_w m (d_prop d) in
   if is_none old || w_less old we then set_entry m (d_prop d) (we, d_vid d) else m.
 
-(* a sheet as newStyleFor sees it (style.go:1432-1436) *)
+(* a sheet as newStyleFor sees it (style.go:1468-1472) *)
 Record sheet := mkSheet { sh_origin : origin; sh_forced : option spec3; sh_rules : list frule }.
 
-(* tree.go:218-227 + style.go:93-115 for one element *)
-Definition apply_rule (o : origin) (forced : option spec3) (p : path) (m : cmap) (r : frule) : cmap :=
+(* tree.go:224-233 + style.go:93-115 for one element *)
+Definition apply_rule (o : origin) (forced : option spec3) (pseudo : N) (p : path) (m : cmap) (r : frule) : cmap :=
   fold_left (fun m s =>
-     if matches s p
+     if applies s pseudo p
      then let sp := match forced with Some f => f | None => specificity s end in
           fold_left (insert o false sp) (snd r) m
      else m) (fst r) m.
 
-Definition apply_sheet (p : path) (m : cmap) (sh : sheet) : cmap :=
-  fold_left (apply_rule (sh_origin sh) (sh_forced sh) p) (sh_rules sh) m.
+Definition apply_sheet (pseudo : N) (p : path) (m : cmap) (sh : sheet) : cmap :=
+  fold_left (apply_rule (sh_origin sh) (sh_forced sh) pseudo p) (sh_rules sh) m.
 
 (* a <style>/<link> element: media attribute + content *)
 Record author_sheet := mkAuthor { a_media : list N; a_rules : rules }.
@@ -307,40 +320,44 @@ Record document := mkDoc {
   doc_authors : list author_sheet;     (* in document order *)
   doc_users : list (N * rules) }.      (* device the sheet was compiled for, rules *)
 
-(* style.go:657-676: the media attribute filters <style>/<link> *)
+(* style.go:686-696: the media attribute filters <style>/<link> *)
 Definition find_stylesheets (d : document) : list rules :=
   map a_rules (filter (fun a => evaluate_media (a_media a) (doc_device d)) (doc_authors d)).
 
-(* style.go:1475-1493 *)
+(* style.go:1506-1523 *)
 Definition all_sheets (d : document) : list sheet :=
   [mkSheet UA None (flatten_rules (doc_ua_device d) (doc_ua d) false)]
   ++ (if doc_hints d then [mkSheet Author (Some (0, 0, 0)) (flatten_rules (doc_ph_device d) (doc_ph d) false)] else [])
   ++ map (fun r => mkSheet Author None (flatten_rules (doc_device d) r false)) (find_stylesheets d)
   ++ map (fun u => mkSheet User None (flatten_rules (fst u) (snd u) false)) (doc_users d).
 
-(* style.go:62-78 with findStyleAttributes 746-756: for one element, first the
-   style attribute (specificity (1,0,0), flagged), then its hints (0,0,0) *)
-Definition attr_pass (d : document) (p : path) : cmap :=
+(* style.go:62-78 with findStyleAttributes 757-768: for one element, first the
+   style attribute (specificity (1,0,0), flagged), then its hints (0,0,0)
+   (they go to the key (element, "")) *)
+Definition attr_pass (d : document) (pseudo : N) (p : path) : cmap :=
   match p with
   | [] => empty_map
   | e :: _ =>
-      let m1 := fold_left (insert Author true (1, 0, 0)) (n_style e) empty_map in
-      if doc_hints d then fold_left (insert Author false (0, 0, 0)) (n_hints e) m1 else m1
+      if pseudo =? 0 then
+        let m1 := fold_left (insert Author true (1, 0, 0)) (n_style e) empty_map in
+        if doc_hints d then fold_left (insert Author false (0, 0, 0)) (n_hints e) m1 else m1
+      else empty_map
   end.
 
-Definition cascade_impl (d : document) (p : path) : cmap :=
-  fold_left (apply_sheet p) (all_sheets d) (attr_pass d p).
+Definition cascade_impl (d : document) (pseudo : N) (p : path) : cmap :=
+  fold_left (apply_sheet pseudo p) (all_sheets d) (attr_pass d pseudo p).
 
-(* the observable: id of the cascaded value of property `prop` on element p *)
-Definition used (d : document) (p : path) (prop : N) : option N :=
+(* the observable: id of the cascaded value of property `prop` on element p
+   (pseudo = 0) or on its pseudo-element `pseudo` *)
+Definition used (d : document) (pseudo : N) (p : path) (prop : N) : option N :=
   match p with
   | [] => None
-  | _ => option_map snd (cascade_impl d p prop)
+  | _ => option_map snd (cascade_impl d pseudo p prop)
   end.
 
 (* ------------------------------------------------------------------ presentational attributes *)
 
-(* style.go:868-960 restricted to the width / height / size attributes (digits
+(* style.go:845-1020 restricted to the width / height / size attributes (digits
    only) of table, td/th, tr, col, hr and img.  Property codes: 6 width, 7 height.
    Tag codes as in Check/C03.v.  Attribute values are what isDigit accepts. *)
 Definition tag_table := 4.  Definition tag_td := 5.  Definition tag_hr := 6.
@@ -351,13 +368,13 @@ Definition hint (prop : N) (v : option N) : list decl :=
   match v with Some n => [mkDecl prop n false] | None => [] end.
 
 Definition hints_of (tag : N) (width height size : option N) : list decl :=
-  if tag =? tag_table then hint 6 width ++ hint 7 height                    (* 868-881 *)
-  else if (tag =? tag_td) || (tag =? tag_th) then hint 7 height ++ hint 6 width   (* 914-931 *)
-  else if tag =? tag_tr then hint 7 height                                  (* 914-921 *)
-  else if tag =? tag_col then hint 6 width                                  (* 938-946 *)
-  else if tag =? tag_hr then                                                (* 947-974; no color/noshade *)
+  if tag =? tag_table then hint 6 width ++ hint 7 height                    (* 879-892 *)
+  else if (tag =? tag_td) || (tag =? tag_th) then hint 7 height ++ hint 6 width   (* 924-941 *)
+  else if tag =? tag_tr then hint 7 height                                  (* 924-931 *)
+  else if tag =? tag_col then hint 6 width                                  (* 949-956 *)
+  else if tag =? tag_hr then                                                (* 957-982; no color/noshade *)
     (match size with
      | Some s => if 1 <? s then [mkDecl 7 (s - 2) false] else []
      | None => [] end) ++ hint 6 width
-  else if tag =? tag_img then hint 6 width ++ hint 7 height                 (* 1001-1015 *)
+  else if tag =? tag_img then hint 6 width ++ hint 7 height                 (* 1011-1026 *)
   else [].
